@@ -283,7 +283,8 @@ func stateInAnnotationObjectKey(s *Scanner, c byte) state {
 	case c == s.boundary:
 		s.step = stateEndValue
 
-	case bytes.IsSpace(c):
+	case bytes.IsSpace(c) || (s.annotation == annotationMultiLine && bytes.IsNewLine(c)):
+		// In a multi-line annotation the colon may stand on the next line.
 		s.step = stateInAnnotationObjectKeyAfter
 
 	case c < 0x20 || (c == '"' || bytes.IsNewLine(c)):
@@ -297,7 +298,7 @@ func stateInAnnotationObjectKeyAfter(s *Scanner, c byte) state {
 	case s.boundary == 0 && c == ':':
 		return stateEndValue(s, c)
 
-	case bytes.IsSpace(c):
+	case bytes.IsSpace(c) || (s.annotation == annotationMultiLine && bytes.IsNewLine(c)):
 		return scanContinue
 	}
 	panic(s.newDocumentError(errors.ErrInvalidCharacterInAnnotationObjectKey, c))
